@@ -204,12 +204,12 @@ def _call_harness(shape, style, runner):
         if ncalls is not None:
             obs.append(Ob(f"{tag}/once-per-call-site@{runner}", z3.BoolVal(len(CALLS) == ncalls), note=f"{len(CALLS)} invocations, expected {ncalls}", tags=tags))
         else:
-            # inside || and ?: a call site may be skipped, but none is reached twice and the first operand's is reached
+            # inside || and ?: a call site may be skipped, but none is reached twice (whether it is reached at all is the result obligation's business)
             per_site = {}
             for _, args in CALLS:
                 k = id(args[0]) if args else None
                 per_site[k] = per_site.get(k, 0) + 1
-            obs.append(Ob(f"{tag}/at-most-once-per-call-site@{runner}", z3.BoolVal(bool(CALLS) and max(per_site.values()) == 1),
+            obs.append(Ob(f"{tag}/at-most-once-per-call-site@{runner}", z3.BoolVal(max(per_site.values(), default=0) <= 1),
                           note=f"invocations per call site: {sorted(per_site.values())}", tags=tags))
         if sid in ("global2", "method2", "global3", "method3", "global1", "method1") and CALLS:
             got = CALLS[-1][1]
